@@ -14,6 +14,7 @@ from concurrent.futures import ThreadPoolExecutor
 from . import driver
 from .driver import VERIF, REPO
 from .extract import AnchorLost
+from .rtok import LexError as rtok_LexError
 from .spec import SpecError
 
 MUTANTS = os.path.join(VERIF, 'mutants', 'mutants.json')
@@ -129,6 +130,50 @@ def seeds(pid=None, workers=3):
                 dirs.append(os.path.join(root, d))
     with ThreadPoolExecutor(max_workers=workers) as ex:
         return list(ex.map(lambda d: run_seed(d, known), dirs))
+
+
+def run_harmless(path, known_oids):
+    """apply one behaviour-preserving refactoring (harmless/<name>.diff, written by independent sub-agents) to a scratch copy and report:
+    'quiet' (every obligation verifies), 'undecided' (outside the subset / anchor lost / hint only) or 'FALSE-ALARM'"""
+    name = os.path.basename(path)[:-5]
+    wd = tempfile.mkdtemp(prefix='xcpverif-harm-')
+    try:
+        copy_sources(wd)
+        p = subprocess.run(['patch', '-p1', '-s', '-i', path], cwd=wd, stdout=subprocess.PIPE, stderr=subprocess.STDOUT, text=True)
+        if p.returncode != 0:
+            return {'patch': name, 'status': 'stale', 'detail': p.stdout[-200:]}
+        skip = set()
+        for attempt in range(3):
+            try:
+                G = driver.assemble(repo=wd, skip=skip)
+            except (AnchorLost, SpecError, rtok_LexError) as e:
+                return {'patch': name, 'status': 'undecided', 'detail': str(e)[:200]}
+            res = driver.run_verus(G, wd, threads=4)
+            failed, tool, _ = driver.classify(G, res)
+            if tool and G.tool_fids and not G.tool_unmapped and not (G.tool_fids <= skip) and attempt < 2:
+                skip |= G.tool_fids
+                continue
+            break
+        fo = [o for o in failed if o not in known_oids and G.obligations[o]['kind'] != 'proof-hint']
+        hints = [o for o in failed if o not in known_oids and G.obligations[o]['kind'] == 'proof-hint']
+        if fo:
+            return {'patch': name, 'status': 'FALSE-ALARM', 'props': sorted({t for o in fo for t in G.obligations[o]['tags']}), 'by': fo[:6]}
+        if tool and not skip:
+            return {'patch': name, 'status': 'undecided', 'detail': tool[0][:200]}
+        if skip or hints:
+            return {'patch': name, 'status': 'undecided', 'detail': 'functions outside the subset after the change: %s %s' % (sorted(skip), hints[:2])}
+        return {'patch': name, 'status': 'quiet'}
+    finally:
+        shutil.rmtree(wd, ignore_errors=True)
+
+
+def harmless(workers=4):
+    from .checks import load_known
+    known = {k['obligation_id'] for k in load_known() if k.get('status') == 'open' and 'obligation_id' in k}
+    root = os.path.join(VERIF, 'harmless')
+    files = sorted(os.path.join(root, f) for f in os.listdir(root) if f.endswith('.diff'))
+    with ThreadPoolExecutor(max_workers=workers) as ex:
+        return list(ex.map(lambda f: run_harmless(f, known), files))
 
 
 # ---------------------------------------------------------------------------------------------------------------
